@@ -42,6 +42,12 @@ chk("C12", "exploration",
     "Trusted: crypto/* of the Go stdlib as reference digests; simulated reader/writer. Real code: hashio, control.FileHash.Verifier, BestChecksums, Unmarshal.",
     "DESIGN.md §5 C12")
 
+chk("C13", "exploration",
+    "deterministic simulation: seeded ar archives on a simulated disk (strict / eof-eager ReaderAt, EIO ranges) with an iterator task and per-member reader tasks interleaved by a seeded scheduler at every disk read, checked operation by operation against a member-list model; tape minimisation and exact replay",
+    "Every Next result and every Read/Seek/ReadAt/re-read on every member reader is compared with the model while the iterator advances; both contract-legal end-of-file behaviours of io.ReaderAt are explored; under EIO an operation may fail or return a correct prefix, never wrong bytes. Sampling: evidence, not proof.",
+    "Trusted: io.SectionReader, the archive renderer/model in harness/ar.go, the simulated disk. Real code: deb.LoadAr, Ar.Next, parseArEntry.",
+    "DESIGN.md §5 C13")
+
 def main():
     props = [json.loads(l) for l in open(os.path.join(HERE, "properties.jsonl"))]
     ids = [p["id"] for p in props]
